@@ -6,6 +6,7 @@ From SP Require Import Bytes Params Msgpack Crypto Errors Packets Chunker Rand S
 From SP Require Import BaseX Encodings Armor ArmorProofs ArmoredForms.
 From SP Require Import Nonce Packets Signcrypt GoLang GoAst GoAstProofs GoAstProofs2.
 From SP Require Import GoLang2 GoAstSign GoAstProofs6a.
+From SP Require GoAstOpen GoAstProofs3 GoAstProofs4b GoAstProofs5a GoAstProofs7c.
 From Coq Require String.
 Import String.StringSyntax.
 Import ListNotations.
@@ -119,6 +120,61 @@ Theorem C07_source_signDetachedStream_Close (c : crypto) (enc_step : gval -> byt
   lookup "s" (snd r) = Some (g_sds st).
 Proof. exact (go_signDetachedStream_Close c enc_step st). Qed.
 
+(* ---- source ties: the DETACHED-signature entry points (/repo/verify.go), lemmas of proofs/GoAstProofs7c.v ---- *)
+(* The terms f_saltpack_VerifyDetachedReader and f_saltpack_VerifyDetached are generated on every run from the Go
+   syntax trees of /repo/verify.go (gen/GoAstOpen.v) and run by the evaluator of model/GoLang2.v on ENCODED arguments:
+   the version validator VV and the keyring KR are opaque values whose meaning is in the externs (vd, kr); the
+   message reader is [g_rdr msg e]: the bytes it delivers, then io.EOF (None) or an arbitrary read error; a
+   SigningPublicKey object is [g_spk pk].  Externs (ext_vdet): newVerifyStream = the model's verify_read_header
+   (tied by C06_source_newVerifyStream), msgpackStream.Read at []byte = the model's parser, LookupSigningPublicKey =
+   lookup_signer, io.Copy(hasher, r) = everything r delivers goes into the hash state and r's error is returned,
+   key.Verify = ed_verify; an extern has NO value where the model says Unmodelled: the evaluator is then stuck at
+   that call (OStuck "call") and vdet_outcome says exactly when.  vdet_outcome (GoAstProofs7c.v) is what
+   VerifyDetachedReader returns, as Go values: the header error (ErrFailedToReadHeaderBytes, decode,
+   ErrNotASaltpackMessage, ErrBadVersion, the mode gate ErrWrongMessageType), the error of reading the signature
+   packet (io.EOF, decode), ErrNoSenderKey{sender}, the message reader's error (returned as is, after the key
+   lookup and before the signature check), ErrBadSignature, or (key, nil) — the signature being checked against
+   detachedSignatureInputFromHash(SHA-512(headerHash ++ message)).  vd_class reads such an outcome back as a result
+   of the model (error classes by name). *)
+Section C07_source_verify.
+Import GoLang2 GoAstOpen GoAstProofs3 GoAstProofs4b GoAstProofs5a GoAstProofs7c.
+
+(* VerifyDetachedReader(vv, message, signature, keyring) returns exactly vdet_outcome, for every validator, keyring,
+   message, message-reader error rerr (None, or any named error value), signature file and crypto record.
+   No hypothesis. *)
+Theorem C07_source_VerifyDetachedReader (c : crypto) (vd : validator) (kr : sigring) (VV KR : gval) (msg : bytes)
+        (rerr : option (String.string * list gval)) (sigfile : bytes) :
+  let rv := match rerr with Some (n, a) => Some (VErr n a) | None => None end in
+  fst (run_func2 (ext_vdet c vd kr) f_saltpack_VerifyDetachedReader [VV; g_rdr msg rv; VBytes sigfile; KR])
+  = vdet_outcome c vd kr msg rv sigfile.
+Proof. exact (go_VerifyDetachedReader c vd kr VV KR msg rerr sigfile). Qed.
+
+(* without a read error, the class of that outcome IS the model's verify_detached (the function the C07 theorems
+   above are about): same signer on success, same error class otherwise.  No hypothesis. *)
+Theorem C07_source_vdet_outcome_model (c : crypto) (vd : validator) (kr : sigring) (msg sigfile : bytes) :
+  vd_class (vdet_outcome c vd kr msg None sigfile) = verify_detached c vd kr msg sigfile.
+Proof. exact (vdet_outcome_model c vd kr msg sigfile). Qed.
+
+(* VerifyDetached(vv, message, signature, keyring) = VerifyDetachedReader over bytes.NewReader(message): with the
+   call of VerifyDetachedReader given the meaning just proved (ext_vdet2), it returns vdet_outcome with no read
+   error.  No hypothesis. *)
+Theorem C07_source_VerifyDetached (c : crypto) (vd : validator) (kr : sigring) (VV KR : gval) (msg sigfile : bytes) :
+  fst (run_func2 (ext_vdet2 c vd kr) f_saltpack_VerifyDetached [VV; VBytes msg; VBytes sigfile; KR])
+  = vdet_outcome c vd kr msg None sigfile.
+Proof. exact (go_VerifyDetached c vd kr VV KR msg sigfile). Qed.
+
+(* VerifyDetached against the model: the class of what the translated function returns is verify_detached.
+   No hypothesis. *)
+Theorem C07_source_VerifyDetached_model (c : crypto) (vd : validator) (kr : sigring) (VV KR : gval) (msg sigfile : bytes) :
+  vd_class (fst (run_func2 (ext_vdet2 c vd kr) f_saltpack_VerifyDetached [VV; VBytes msg; VBytes sigfile; KR]))
+  = verify_detached c vd kr msg sigfile.
+Proof. exact (go_VerifyDetached_model c vd kr VV KR msg sigfile). Qed.
+End C07_source_verify.
+
+Print Assumptions C07_source_VerifyDetachedReader.
+Print Assumptions C07_source_vdet_outcome_model.
+Print Assumptions C07_source_VerifyDetached.
+Print Assumptions C07_source_VerifyDetached_model.
 Print Assumptions C07_source_newSignDetachedStream.
 Print Assumptions C07_source_signDetachedStream_Write.
 Print Assumptions C07_source_signDetachedStream_Close.
